@@ -269,7 +269,14 @@ def encode(chooser, seq, physical: int, sizes, *, namespaces=(), features=ALL_FE
             enc.maybe_cut("statement")
         if i + 1 < len(seq) and enc._c("early-entry", 2, "early-entry"):
             enc.prefetch(seq[i + 1])
+        before = len(enc.rows)
         enc.statement(st)
+        if len(enc.rows) - before >= 2 and not single and enc._c(
+                "frames", 2, "cut-before-statement-row"):
+            # the frame ends after the lookup entries; the row that uses them opens the next one
+            last = enc.rows.pop()
+            enc.cut()
+            enc.rows.append(last)
         if namespaces and enc._c("late-namespace", 2, "late-namespace"):
             # a producer may declare a namespace anywhere, also between two statements of a frame
             enc.namespace("late", "http://late/ns#")
